@@ -1,6 +1,10 @@
 /* ring.c — correspondence harness for include/lockfree_ring_buffer.h (C16).
- * usage: ring <log2 size> <script>; ops: p<v> = trypush(v), o = trypop,
+ * usage: ring <log2 size> <script> [base]; ops: p<v> = trypush(v), o = trypop,
  * P<v> = blocking push(v), O = blocking pop, z = size query.
+ * base (decimal, default 0): a ring that has been in use for a long time - `high` and `low`
+ * both start at `base` (mod 2^64) instead of 0, exactly the state `base` push/pop pairs would
+ * have produced on an empty ring (all slots NULL).  Bases just below 2^64, 2^63, 2^32 make the
+ * counters cross those points during the run.
  * The blocking wrappers are logged as `call bpush v` / `ret bpush 1`, `call bpop` / `ret bpop v`
  * (the model must know which function is running); Ring.drive shows them to the API-level
  * monitor as ordinary `push` / `pop` operations that cannot fail.  Scripts must be deadlock-free
@@ -14,6 +18,12 @@
 #include "lockfree_ring_buffer.h"
 
 static lockfree_ring_buffer_t* rb;
+
+/* not part of the library and not an access of the run: kept out of the log */
+__attribute__((no_sanitize_thread, noinline)) static void apply_base(uint64_t base) {
+  *(volatile uint64_t*)&rb->high = base;
+  *(volatile uint64_t*)&rb->low = base;
+}
 
 static void do_op(int t, const char* op) {
   (void)t;
@@ -55,12 +65,16 @@ int main(int argc, char** argv) {
     __asm__ __volatile__("" : : "r"(dirty) : "memory"); /* keep the stores */
     free(dirty);
   }
+  uint64_t base = argc > 3 ? strtoull(argv[3], 0, 10) : 0;
   rb = lockfree_ring_buffer_create(k);
+  if (base) apply_base(base);
   vr_reg(&rb->high, 8, "high");
   vr_reg(&rb->low, 8, "low");
   for (uint32_t i = 0; i < rb->size; i++) vr_reg(&rb->buffer[i], 8, "buf%u", i);
   /* the model is told the REQUESTED capacity 2^k, not what the implementation made of it */
-  vr_note("init ring %u", 1u << k);
+  /* argv[4]: how the source compares the counters in trypop/pop, as read from the header by
+   * extract/ring_extract.py (the harness cannot know; it only passes the word on) */
+  vr_note("init ring %u %llu %s", 1u << k, (unsigned long long)base, argc > 4 ? argv[4] : "asis");
   vh_run(do_op);
   /* drain single-threaded so the monitor can tell a lost item from a queued one */
   for (;;) {
